@@ -45,8 +45,17 @@ def export_real(lines, bin_bytes: bytes):
 
 
 def pcm_of(wav: bytes):
+    """(channels, rate, width, raw bytes of the data chunk) — the chunk is read raw so that a partial
+    trailing frame is seen (stdlib wave would silently floor it away)."""
     with wave.open(io.BytesIO(wav), "rb") as w:
-        return w.getnchannels(), w.getframerate(), w.getsampwidth(), w.readframes(w.getnframes())
+        hdr = (w.getnchannels(), w.getframerate(), w.getsampwidth())
+    pos = 12
+    while pos + 8 <= len(wav):
+        cid, n = wav[pos : pos + 4], struct.unpack("<I", wav[pos + 4 : pos + 8])[0]
+        if cid == b"data":
+            return hdr + (wav[pos + 8 : pos + 8 + n],)
+        pos += 8 + n
+    return hdr + (b"",)
 
 
 def oracle_export(rep: Report, lines, firsts, bin_bytes, titles):
